@@ -307,14 +307,20 @@ def check_ring_and_chain_hosts(ctx):
         H4, _ = WG.scramble(H4, rng)
         ctx.count("four_component_pairs")
         check_pair(ctx, H4, WG.scramble(P4, rng)[0], "four-component pattern x four-molecule hosts", ("four", oi), light=True)
-    for t in range(30 if ctx.quick else 600):
+    for t in range(160 if ctx.quick else 1600):
         if not ctx.mine(t):
             continue
         Hh = WG.random_mol(rng, rng.randint(3, 7), components=rng.choice([1, 1, 2]))
-        for n in list(Hh.nodes):
-            if rng.random() < 0.2:
-                Hh.add_edge(n, n, order=1.0, standard_order=0.0)
-        P = WG.planted_pattern(rng, Hh, rng.randint(1, 3))
+        loops = [n for n in list(Hh.nodes) if rng.random() < 0.25] or [rng.choice(list(Hh.nodes))]
+        for n in loops:
+            Hh.add_edge(n, n, order=1.0, standard_order=0.0)
+        # the pattern is cut out around a looped atom (so it keeps the loop) in two thirds of the cases
+        if t % 3:
+            centre = rng.choice(loops)
+            keep = {centre} | set(rng.sample(sorted(set(Hh[centre]) - {centre}), min(len(set(Hh[centre]) - {centre}), rng.randint(0, 2))))
+            P = Hh.subgraph(keep).copy()
+        else:
+            P = WG.planted_pattern(rng, Hh, rng.randint(1, 3))
         P, _ = WG.scramble(P, rng)
         if any(P.has_edge(n, n) for n in P.nodes):
             ctx.count("patterns_with_self_loops")
